@@ -2,6 +2,7 @@
 package registry
 
 import (
+	"verif/sim/clisim"
 	"verif/sim/execsim"
 	"verif/sim/simkit"
 )
@@ -40,5 +41,29 @@ func init() {
 			"directory is not edited during the run (edits are C11/C12)",
 		},
 		SimTimeUnit: "executor calls (no clock on this path)",
+	})
+	c10probes := []string{"crash-between-statement-and-bookkeeping", "statement-executed-twice-after-crash", "lease-left-after-crash"}
+	for _, m := range clisim.TxModes {
+		for _, p := range clisim.CrashPoints {
+			c10probes = append(c10probes, "cell:"+m+":"+p)
+		}
+	}
+	add(&simkit.Check{
+		Property: "C10",
+		Parts: []simkit.Part{{
+			Name: "clisim-c10", Fn: clisim.C10, ProcessLevel: true, NeedsCLI: true,
+			Runs: map[string]int{"quick": 1440, "thorough": 43200},
+		}},
+		Rule:           "one run = generated directory (1-4 files x 1-4 self-journalling statements, idempotent DDL mixed in) + tx-mode and first crash point stratified over the run index (36 cells) + tape-drawn occurrence, count argument, optional earlier clean apply, optional second crash at a drawn point, restart with the lease still held or expired; distinct = distinct trace hash among runs in which a crash really fired",
+		RequiredProbes: c10probes,
+		RequiredFaults: []string{"crash", "restart-with-lease-held", "lease-expired"},
+		Real:           []string{"the whole CLI binary built from /repo with -tags verif (cmdapi, Executor, ent revision store, sqlclient, SQLite driver)", "SQLite engine and files (journal recovery after SIGKILL)", "advisory lock lease file"},
+		Stub:           []string{"none (hooks are no-op call sites; the observer is an independent mattn/go-sqlite3 connection)"},
+		Assumptions: []string{
+			"crash = SIGKILL of the process: user-space state and deferred code are lost, bytes handed to the kernel survive (no power-loss / lost-fsync model)",
+			"lease time is simulated by rewriting the lease file's expiry (clock not reached / jumped past)",
+			"migration statements are idempotent DDL (CREATE TABLE IF NOT EXISTS) or self-journalling INSERTs so that a repeated execution is observable, not masked",
+		},
+		SimTimeUnit: "CLI invocations and lease epochs (no timers on this path except the lease, which is simulated)",
 	})
 }
